@@ -25,6 +25,7 @@ TEXT_GRAMMARS = {
     'based_rule': "start: d | b ;\nb: 'a' ;\nd < b: 'b' ;\n",
     'cut_in_group': "start: ('x' ~ 'y') 'z' | 'x' 'y' 'w' | 'x' ;\n",
     'cut_in_group_in_optional': "start: [('a' ~) 'b'] 'a' ['c'] ;\n",
+    'tiny': "start: ['a'] $ ;\n",
     'nested_closures_named': "start: items+={ ','.{ item }+ ';' } $ ;\nitem: /[ab]/ ;\n",
 }
 SETTINGS = {
@@ -33,6 +34,7 @@ SETTINGS = {
     'noguard': {'nameguard': False},
     'ws': {'whitespace': '[\\t ]+'},
     'parseinfo': {'parseinfo': True},
+    'nows': {'whitespace': '', 'nameguard': False},
 }
 CORE_QUICK = ['choice_order', 'join_star_tail', 'named_defaults', 'override', 'rule_list_nested', 'optional_in_seq', 'group_splice', 'names_in_closure',
               'skip_group', 'cut_in_optional', 'lookaheads', 'closure_nested']
@@ -127,15 +129,16 @@ def plan(tier, seed):
                 spec = {'grammar': name, 'rules': rules, 'n': n, 'settings': SETTINGS[sn], 'ref': False, 'gen': True}
                 obs.append(Ob(name=f'{name}_{sn}_L{n}', factory='vt.pegbody:make_peg', spec=spec, params=[(f'c{i}', 0, UNI) for i in range(n)], budget=BUDGET[n], group=sn))
     for name, g in TEXT_GRAMMARS.items():
-        ss = {'directives_case': ['default', 'noguard'], 'name_keyword': ['default', 'ignorecase'], 'meta': ['default', 'ws'], 'named_group': ['default', 'parseinfo'], 'cut_in_group': ['noguard'], 'cut_in_group_in_optional': ['noguard']}.get(name, ['default'])
+        ss = {'directives_case': ['default', 'noguard'], 'name_keyword': ['default', 'ignorecase'], 'meta': ['default', 'ws'], 'named_group': ['default', 'parseinfo'], 'cut_in_group': ['noguard'], 'cut_in_group_in_optional': ['noguard'], 'tiny': ['nows']}.get(name, ['default'])
         if tier != 'quick':
             ss = list(SETTINGS)
         for sn in ss:
-            for n in range(0, maxn + 1):
+            # 'tiny' goes one character further in the quick tier too: the configuration a generated parser embeds (comment patterns, F35) shows at length 4
+            for n in range(0, (4 if name == 'tiny' else maxn) + 1):
                 if tier == 'quick' and n == 3 and (name == 'meta' or (name == 'directives_case') or (name == 'name_keyword' and sn == 'ignorecase')):
                     continue        # int()/float() realise every digit; case folding on symbolic text costs ~1 s per path: length 3 is left to the thorough tier        # int()/float() realise every digit: length 3 is left to the thorough tier
                 spec = {'grammar': name, 'gtext': g, 'n': n, 'settings': SETTINGS[sn], 'gen': True,
-                        'warm': ['', 'a', 'ab', 'aB', 'a b', 'abc', 'a-a', 'if', 'x', 'a,b', 'a;', 'b;', '1', '-1', 'xyw', 'xyz', 'xy', 'ac', 'abc', 'x y', 'a 1', 'true', 'ba', 'bab', 'a\nb', 'a#b', 'aAB', 'a(*', 'ab ', 'abab']}
+                        'warm': ['', 'a', 'ab', 'aB', 'a b', 'abc', 'a-a', 'if', 'x', 'a,b', 'a;', 'b;', '1', '-1', 'xyw', 'xyz', 'xy', 'ac', 'abc', 'x y', 'a 1', 'true', 'ba', 'bab', 'a\nb', 'a#b', 'aAB', 'a(*', 'ab ', 'abab', 'None', 'Nonea']}
                 # @int/@uint/@float call int()/float() on the matched text, which realises each digit: restrict this grammar to ASCII
                 pre = ' and '.join(f'c{i} < 128' for i in range(n)) if name == 'meta' else ''
                 obs.append(Ob(name=f'{name}_{sn}_L{n}', factory='vt.pegbody:make_peg', spec=spec, params=[(f'c{i}', 0, UNI) for i in range(n)], budget=BUDGET[n], group='text:' + sn,
